@@ -236,9 +236,11 @@ class ColumnBackend(PolarsSchemaBackend):
             results.append(
                 CoreCheckResult(
                     passed=cast(bool, passed.select(column).item()),
-                    check_output=isna.collect().rename(
-                        {column: CHECK_OUTPUT_KEY}
-                    ),
+                    # the check output of this column only: a regex selector
+                    # may have matched several columns
+                    check_output=isna.select(
+                        pl.col(column).alias(CHECK_OUTPUT_KEY)
+                    ).collect(),
                     check="not_nullable",
                     reason_code=SchemaErrorReason.SERIES_CONTAINS_NULLS,
                     message=(
